@@ -887,6 +887,7 @@ func (r *rig) run(goal func(r *rig) bool) {
 	synctest.Wait() // the receiver is listening before the sender starts
 	r.startSender()
 	tick := time.Second
+	lastEv, lastGoal := -1, time.Duration(0)
 	for {
 		select {
 		case g := <-r.doneCh:
@@ -914,8 +915,14 @@ func (r *rig) run(goal func(r *rig) bool) {
 			return
 		case <-time.After(tick):
 		}
-		if goal != nil && goal(r) && r.stopped == "" && !r.conf.OneShot {
-			return
+		r.mu.Lock()
+		nEv := len(r.events) + len(r.wire)
+		r.mu.Unlock()
+		if goal != nil && r.stopped == "" && !r.conf.OneShot && (nEv != lastEv || r.now()-lastGoal > time.Minute) {
+			lastEv, lastGoal = nEv, r.now()
+			if goal(r) {
+				return
+			}
 		}
 		if r.now()-r.lastDev > r.conf.Horizon {
 			return
